@@ -287,9 +287,47 @@ class FnTrans:
         env[root] = dict(lean=ln, type=ty)
         return env, "let %s : %s := %s\n%s" % (ln, ty, newv, pad), self.conj(*pres)
 
+    def path_args(self, n):
+        """access path with holes: subscripts become `[]`, member calls `.m()`; the index / argument nodes are collected in order.
+        `cgr.rs[left_ix]->width()` = ("cgr.rs[].width()", [left_ix])"""
+        k = n.get("kind")
+        if k in ("ImplicitCastExpr", "ParenExpr", "MaterializeTemporaryExpr", "ExprWithCleanups"):
+            return self.path_args(n["inner"][0])
+        if k == "CXXThisExpr": return "this", []
+        if k == "DeclRefExpr" and n["referencedDecl"]["kind"] in ("ParmVarDecl",): return n["referencedDecl"]["name"], []
+        if k == "MemberExpr":
+            b = self.path_args(n["inner"][0])
+            return None if b is None else (b[0] + "." + n["name"], b[1])
+        if k == "CXXOperatorCallExpr":
+            parts = [c for c in n["inner"] if isinstance(c, dict)]
+            callee = parts[0]
+            while callee.get("kind") == "ImplicitCastExpr": callee = callee["inner"][0]
+            if callee.get("referencedDecl", {}).get("name") == "operator[]" and len(parts) == 3:
+                b = self.path_args(parts[1])
+                return None if b is None else (b[0] + "[]", b[1] + [parts[2]])
+            if callee.get("referencedDecl", {}).get("name") in ("operator->", "operator*") and len(parts) == 2:
+                return self.path_args(parts[1])          # smart pointer: same object
+            return None
+        if k == "CXXMemberCallExpr":
+            parts = [c for c in n["inner"] if isinstance(c, dict)]
+            if parts[0].get("kind") != "MemberExpr": return None
+            b = self.path_args(parts[0]["inner"][0])
+            return None if b is None else (b[0] + "." + parts[0]["name"] + "()", b[1] + parts[1:])
+        return None
+
     def expr(self, n, env):
         k = n.get("kind")
         inner = [c for c in n.get("inner", []) if isinstance(c, dict)]
+        if self.job.get("fun_paths") and k in ("CXXMemberCallExpr", "CXXOperatorCallExpr", "MemberExpr"):
+            pa = self.path_args(n)
+            if pa is not None and pa[0] in self.job["fun_paths"]:
+                ln_, atys_, rty_ = self.job["fun_paths"][pa[0]]
+                if len(atys_) != len(pa[1]): raise Unsupported("%s: arity of %s" % (self.name, pa[0]))
+                as_ = [self.expr(a_, env) for a_ in pa[1]]
+                for (t_, ty_, p_), want in zip(as_, atys_):
+                    if ty_ != want: raise Unsupported("%s: argument %s of %s" % (self.name, ty_, pa[0]))
+                txt = "(%s %s)" % (ln_, " ".join(a_[0] for a_ in as_)) if as_ else ln_
+                return txt, rty_, self.conj(*[a_[2] for a_ in as_])
         if self.paths:
             pth = self.path_of(n)
             if pth is not None and pth in self.paths:
@@ -477,6 +515,10 @@ class FnTrans:
                 f_ = self.num(ta)["ops"].get(op)
                 if f_ is None: raise Unsupported("%s: operator %s on %s" % (self.name, op, ta))
                 return f_ % (a, b), ("Bool" if op in ("<", ">", "<=", ">=", "==", "!=") else ta), self.conj(pa, pb)
+            if op in ("+", "-", "*", "/") and self.job.get("sz_to_rat") and {ta, tb} == {"Rat", "SZ"}:
+                # a signed-zero value meets a value the job declares sign-of-zero-irrelevant (Rat): the result is Rat
+                if ta == "SZ": a, ta = "(SZ.toRat %s)" % a, "Rat"
+                else: b, tb = "(SZ.toRat %s)" % b, "Rat"
             if op in ("+", "-", "*", "/"):
                 if ta != tb: raise Unsupported("%s: mixed arithmetic %s %s %s" % (self.name, ta, op, tb))
                 if op == "/" and ta != "Rat": raise Unsupported("%s: integer division" % self.name)
@@ -834,10 +876,12 @@ class FnTrans:
             for d in s["inner"]:
                 if d.get("kind") != "VarDecl": raise Unsupported("%s: decl %s" % (self.name, d.get("kind")))
                 lt = self.lean_type(d["type"]["qualType"])[0]
+                lt = self.job.get("var_types", {}).get(d["name"], lt)
                 ln = self.fresh(d["name"])
                 init = [c for c in d.get("inner", []) if isinstance(c, dict)]
                 if init:
                     t, ty, p = self.expr(init[0], env)
+                    if ty == "SZ" and lt == "Rat" and self.job.get("sz_to_rat"): t, ty = "(SZ.toRat %s)" % t, "Rat"
                     if ty != lt: raise Unsupported("%s: init type %s for %s %s" % (self.name, ty, lt, d["name"]))
                     lets.append("let %s : %s := %s" % (ln, lt, t)); pres.append(p)
                 else:
@@ -889,6 +933,7 @@ class FnTrans:
                 # bool |= (bool expr): the rhs is promoted to int in the AST; strip the promotion
                 while rhs.get("kind") == "ImplicitCastExpr" and rhs.get("castKind") == "IntegralCast": rhs = rhs["inner"][0]
             t, ty, p = self.expr(rhs, env)
+            if ty == "SZ" and env[cn]["type"] == "Rat" and self.job.get("sz_to_rat"): t, ty = "(SZ.toRat %s)" % t, "Rat"
             tf0 = self.this_field(s["inner"][0])
             if k == "CompoundAssignOperator":
                 op = s["opcode"][:-1]
@@ -1042,7 +1087,14 @@ class FnTrans:
                 return val, pre
             # both branches may fall through: early-exit encoding, `none` = fell through.
             vs = sorted(v for v in (self.assigned_vars(thn, set()) | self.assigned_vars(els, set())) if v in env)
-            if vs: raise Unsupported("%s: if with both early return and assignments that fall through" % self.name)
+            if vs:
+                # both branches may return or fall through with assignments: the rest of the block is emitted in both
+                if getattr(self, "_retwrap", None) or self._loopctx is not None: raise Unsupported("%s: if with early return and assignments inside a loop / early-exit" % self.name)
+                tv, tp = self.block([thn], env, (lambda e: self.block(rest, e, cont, ind + 1)), ind + 1)
+                ev, ep = self.block([els], env, (lambda e: self.block(rest, e, cont, ind + 1)), ind + 1)
+                val = "if %s then\n%s%s\n%selse\n%s%s" % (c, pad1, tv, pad, pad1, ev)
+                pre = pcs + "(if %s then\n%s%s\n%selse\n%s%s)" % (c, pad1, tp, pad, pad1, ep)
+                return val, pre
             saved = getattr(self, "_retwrap", None)
             self._retwrap = True
             try:
